@@ -501,7 +501,19 @@ func c04CheckApply(c c04Config, withJ bool) string {
 	}
 	func() {
 		defer func() { pan = recover() }()
-		err = inner.Apply(target)
+		// the struct is reached through one pointer or (for every other configuration) through two:
+		// Apply follows pointers down to the struct
+		if c.Masks[0]%2 == 1 {
+			if withJ {
+				pp := target.(*c04TargetJ)
+				err = inner.Apply(&pp)
+			} else {
+				pp := target.(*c04Target)
+				err = inner.Apply(&pp)
+			}
+		} else {
+			err = inner.Apply(target)
+		}
 	}()
 	if pan != nil {
 		return fmt.Sprintf("Apply panicked: %v", pan)
@@ -858,7 +870,7 @@ func c04Run(r *core.Run) {
 	if r.Thorough() {
 		r.SetBudget(10 * time.Minute)
 	}
-	r.Rule = "engine E: every presence assignment of 7 types (struct, pointer, second struct, named string, send-only channel via Set, interface I with two implementors, interface J) to 1..3 nested injectors x every target type for Value(); every signature of arity 0..2 x every 1- and 2-scope assignment (thorough: and a grid of the 3-scope ones) for Invoke() through reflect.MakeFunc functions and hand-declared FastInvoker types; Apply() on two struct targets; registration API {Map/MapTo, Set} x {once, re-registered} x {values, typed nil pointer / nil channel in the innermost scope}; a second universe of interfaces and implementors with unexported methods only (sealed interfaces, pointer receivers, a func type, an interface implied by another) over 1-2 scopes; oracle = reference resolver (exact in nearest scope, else the SET of same-scope implementors, else outer); non-trivial = resolution that needs an outer scope or an implementor, or fails"
+	r.Rule = "engine E: every presence assignment of 7 types (struct, pointer, second struct, named string, send-only channel via Set, interface I with two implementors, interface J) to 1..3 nested injectors x every target type for Value(); every signature of arity 0..2 x every 1- and 2-scope assignment (thorough: and a grid of the 3-scope ones) for Invoke() through reflect.MakeFunc functions and hand-declared FastInvoker types; Apply() on two struct targets (by value, through one pointer, through two); registration API {Map/MapTo, Set} x {once, re-registered} x {values, typed nil pointer / nil channel in the innermost scope}; a second universe of interfaces and implementors with unexported methods only (sealed interfaces, pointer receivers, a func type, an interface implied by another) over 1-2 scopes; oracle = reference resolver (exact in nearest scope, else the SET of same-scope implementors, else outer); non-trivial = resolution that needs an outer scope or an implementor, or fails"
 	r.Assumptions = []string{"reflect.Type.Implements is trusted for the 'implements' relation", "which of several same-scope implementors is picked is free (map order): membership in the set is checked"}
 	sigs := c04Signatures()
 	r.Bounds["types"] = c04Names
